@@ -49,3 +49,81 @@ Record insert_shape := mkInsertShape {
   ins_simple : list rcall;
   ins_over : list rcall
 }.
+
+(* ---------------------------------------------------------------------
+   The other mutating members: a small statement language.  Each member
+   definition of small_vector.tcc is translated into a [prog]; the model's
+   method is the interpretation of that program (SmallVecDefs.exec). *)
+
+(* unsigned expressions *)
+Inductive nexp :=
+| EN                          (* n *)
+| ENOld                       (* n_old *)
+| ESize                       (* size() *)
+| ECap                        (* capacity() *)
+| ERhsSize                    (* rhs.size() / v.size() *)
+| ECapS                       (* the template parameter S *)
+| EConst (k : nat)
+| EAdd (a b : nexp)
+| EMul (a b : nexp)
+| EDiv (a b : nexp)
+| EMax (a b : nexp)           (* std::max(a, b) *)
+| EIfGt (a b t e : nexp).     (* a > b ? t : e *)
+
+Inductive cond :=
+| CLe (a b : nexp)            (* a <= b   (b >= a) *)
+| CLt (a b : nexp)            (* a < b    (b > a) *)
+| CEq (a b : nexp)            (* a == b *)
+| CLocal                      (* local_storage_used() *)
+| CHeap                       (* !local_storage_used() *)
+| CTrivial                    (* std::is_trivially_default_constructible_v<T> *)
+| CNonTrivial                 (* its negation *)
+| CSavedLocal.                (* a bool initialised with local_storage_used() earlier *)
+
+Inductive act :=
+| ALetN (e : nexp)            (* const auto n(e);  n = e; *)
+| ALetNVals                   (* const auto n(std::distance(b, e)) *)
+| ALetNOld                    (* const auto n_old(size()); *)
+| ALetOldSize                 (* const auto old_size(size()); *)
+| ASaveLocal                  (* const bool x(local_storage_used()); *)
+| ASetLocal (sz : nexp)       (* data_ = local_storage_; size_ = data_ + sz; capacity_ = data_ + S; *)
+| ASetHeapNew                 (* data_ = ::operator new(n * sizeof(T)); capacity_ = size_ = data_ + n; *)
+| AStealRhs                   (* data_/size_/capacity_ = rhs's; rhs.data_ = rhs.size_ = rhs.local_storage_; ... *)
+| ASetSize (e : nexp)         (* size_ = begin() + e; *)
+| AIncSize                    (* ++size_; *)
+| AAddSizeN                   (* size_ += n; *)
+| ARhsSetSize0                (* rhs.size_ = rhs.data_; *)
+| AFreeHeap                   (* free_heap_memory(); *)
+| AFromRhs (moving : bool) (w : wsel)  (* std::copy / std::move / uninitialized_copy(rhs.begin(), rhs.end(), begin()) *)
+| ADestroyTail                (* destroy_range(begin() + n, end()); *)
+| AConstructUpToN             (* for (auto k(size()); k < n; ++k) new (data_ + k) T(); *)
+| AFillTailDefault            (* std::fill(end(), begin() + n, T()); *)
+| AFillNDefault               (* std::fill_n(begin(), n, T()); *)
+| AFillNArg                   (* std::fill_n(begin(), n, x); *)
+| AConstructAllDefault        (* for (size_type k(0); k < n; ++k) new (data_ + k) T(); *)
+| AConstructAllArg            (* ... new (data_ + k) T(x); *)
+| AConstructToCap             (* for (; size_ < capacity_; ++size_) new (size_) T(); *)
+| ATmpFromArg                 (* T tmp(x);  T tmp(std::forward<Args>(args)...); *)
+| AConstructEndTmp            (* new (size_) T(std::move(tmp)); *)
+| AAssignEndArg               (* *size_ = x;  *size_ = T(std::forward<Args>(args)...); *)
+| AConstructEndArg            (* new (size_) T(x);  new (size_) T(std::forward<Args>(args)...); *)
+| ANewData                    (* auto new_data(::operator new(n * sizeof(T))); *)
+| AMoveToNewData              (* vita::uninitialized_move(begin(), end(), new_data); *)
+| AAdoptNewData               (* data_ = new_data; capacity_ = data_ + n; size_ = data_ + n_old; *)
+| ACallGrow                   (* grow(); *)
+| ACallGrowN                  (* grow(n); *)
+| ACallReserve (e : nexp)     (* reserve(e); *)
+| AWriteVals (w : wsel).      (* std::copy(b, e, end()) / vita::uninitialized_copy(b, e, end()) *)
+
+Inductive prog :=
+| PNil
+| PAct (a : act) (rest : prog)
+| PIf (c : cond) (t f : prog) (rest : prog).
+
+(* the programs of one source tree *)
+Record progs := mkProgs {
+  p_copy_assign : prog; p_move_assign : prog; p_move_ctor : prog;
+  p_push_back : prog; p_emplace_back : prog; p_resize : prog;
+  p_grow_n : prog; p_grow : prog; p_reserve : prog; p_append : prog;
+  p_ctor_n : prog; p_ctor_fill : prog
+}.
